@@ -65,3 +65,115 @@ package absnfs
 //@ var admitted real, tokens real, maxT real, rate real, last real, t0 real, now real
 //@ hyp rate >= 0.0 && maxT >= 0.0 && tokens >= 0.0 && tokens <= maxT && t0 <= last && last <= now && admitted + tokens <= maxT + rate * (last - t0)
 //@ concl [bound] admitted <= maxT + rate * (now - t0)
+
+// ---- limiter composition (C18, C19)
+
+// every bucket of a per-IP limiter is a live bucket satisfying the bucket invariant
+//@ specdef plInv(pl *PerIPLimiter) bool = pl != nil && pl.limiters != nil && pl.rate >= 0.0 && pl.burst >= 0 && forall(k, string, has(pl.limiters, k) ==> allocated(pl.limiters[k]) && tbInv(pl.limiters[k]) && pl.limiters[k].maxTokens == real(pl.burst) && pl.limiters[k].refillRate == pl.rate, pl.limiters[k])
+// a bucket's state apart from the shared clock
+//@ specdef tbSame(o *TokenBucket) bool = o.tokens == old(o.tokens) && o.maxTokens == old(o.maxTokens) && o.refillRate == old(o.refillRate) && o.lastRefill == old(o.lastRefill) && tbAdmitted[o] == old(tbAdmitted[o]) && tbT0[o] == old(tbT0[o])
+
+//@ func PerIPLimiter.cleanup
+//@ prop C18
+//@ requires plInv(pl)
+//@ modifies mapof(pl.limiters), clock, locks, elems(string)
+// cleanup only forgets buckets: survivors are the same objects, no bucket's state changes ...
+//@ ensures [survivors] forall(k, string, has(pl.limiters, k) ==> old(has(pl.limiters, k)) && pl.limiters[k] == old(pl.limiters[k]), pl.limiters[k])
+//@ ensures [buckets-untouched] forall(o, *TokenBucket, tbSame(o), o.tokens) && clock >= old(clock)
+// ... and it only forgets buckets that are FULL (Tokens() >= burst), which by lemma cleanup_invisible are
+// indistinguishable from the fresh bucket that would replace them
+//@ ensures [only-full-deleted] forall(k, string, old(has(pl.limiters, k)) && !has(pl.limiters, k) ==> refill(oldidx(pl.limiters, k).tokens, oldidx(pl.limiters, k).maxTokens, oldidx(pl.limiters, k).refillRate, tsec(oldidx(pl.limiters, k).lastRefill), clock) >= real(pl.burst), oldidx(pl.limiters, k))
+//@ ensures [inv] plInv(pl) && pl.limiters == old(pl.limiters)
+//@ loop 1 invariant forall(a, off(toDelete), off(toDelete) + len(toDelete), has(pl.limiters, absidx(toDelete, a)) && refill(pl.limiters[absidx(toDelete, a)].tokens, pl.limiters[absidx(toDelete, a)].maxTokens, pl.limiters[absidx(toDelete, a)].refillRate, tsec(pl.limiters[absidx(toDelete, a)].lastRefill), clock) >= real(pl.burst), absidx(toDelete, a))
+//@ loop 1 invariant pl != nil && mapsame(pl.limiters) && pl.limiters == old(pl.limiters) && clock >= old(clock) && pl.rate == old(pl.rate) && pl.burst == old(pl.burst)
+//@ loop 1 invariant forall(o, *TokenBucket, tbSame(o), o.tokens)
+//@ loop 1 invariant forall(o, *TokenBucket, held(o.mu) == 0, held(o.mu))
+//@ loop 1 invariant forall(k, string, has(pl.limiters, k) ==> allocated(pl.limiters[k]) && tbInv(pl.limiters[k]) && pl.limiters[k].maxTokens == real(pl.burst) && pl.limiters[k].refillRate == pl.rate, pl.limiters[k])
+//@ loop 2 invariant pl != nil && pl.limiters == old(pl.limiters) && clock >= old(clock) && pl.rate == old(pl.rate) && pl.burst == old(pl.burst) && 0 <= rangeindex + 1 && rangeindex + 1 <= len(toDelete)
+//@ loop 2 invariant forall(o, *TokenBucket, tbSame(o), o.tokens)
+//@ loop 2 invariant forall(o, *TokenBucket, held(o.mu) == 0, held(o.mu))
+//@ loop 2 invariant forall(k, string, has(pl.limiters, k) ==> old(has(pl.limiters, k)) && pl.limiters[k] == old(pl.limiters[k]), pl.limiters[k])
+//@ loop 2 invariant forall(a, off(toDelete), off(toDelete) + len(toDelete), oldhas(pl.limiters, absidx(toDelete, a)) && refill(oldidx(pl.limiters, absidx(toDelete, a)).tokens, oldidx(pl.limiters, absidx(toDelete, a)).maxTokens, oldidx(pl.limiters, absidx(toDelete, a)).refillRate, tsec(oldidx(pl.limiters, absidx(toDelete, a)).lastRefill), clock) >= real(pl.burst), absidx(toDelete, a))
+//@ loop 2 invariant forall(k, string, old(has(pl.limiters, k)) && !has(pl.limiters, k) ==> refill(oldidx(pl.limiters, k).tokens, oldidx(pl.limiters, k).maxTokens, oldidx(pl.limiters, k).refillRate, tsec(oldidx(pl.limiters, k).lastRefill), clock) >= real(pl.burst), oldidx(pl.limiters, k))
+
+//@ func PerIPLimiter.Allow
+//@ prop C18 C19
+//@ requires plInv(pl)
+//@ modifies mapof(pl.limiters), pl.lastCleanup, clock, tbAdmitted, tbT0, TokenBucket.tokens, TokenBucket.lastRefill, locks, elems(string)
+// exactly one bucket - this IP's - is consulted; every other existing bucket keeps its state
+// (the bucket is the one this IP already had, or a fresh one if it had none or cleanup just forgot it)
+//@ ensures [bucket] has(pl.limiters, ip) && allocated(pl.limiters[ip]) && ((old(has(pl.limiters, ip)) && pl.limiters[ip] == old(pl.limiters[ip])) || fresh(pl.limiters[ip]))
+//@ ensures [decision-is-buckets] tbAdmitted[pl.limiters[ip]] == ite(fresh(pl.limiters[ip]), 0.0, old(tbAdmitted[pl.limiters[ip]])) + ite(result, 1.0, 0.0)
+//@ ensures [others-untouched] forall(o, *TokenBucket, o != pl.limiters[ip] && !fresh(o) ==> tbSame(o), o.tokens)
+//@ ensures [other-keys-same-buckets] forall(k, string, k != ip && has(pl.limiters, k) ==> old(has(pl.limiters, k)) && pl.limiters[k] == old(pl.limiters[k]), pl.limiters[k])
+//@ ensures [bound] tbAdmitted[pl.limiters[ip]] <= pl.limiters[ip].maxTokens + pl.limiters[ip].refillRate * (clock - tbT0[pl.limiters[ip]])
+//@ ensures [inv] plInv(pl) && clock >= old(clock)
+//@ ensures [unlocked] held(pl.mu) == 0
+
+// Cleanup of idle limiters never changes a decision: a bucket that is full when it is forgotten and a
+// fresh bucket created later hold the same number of tokens at every later clock reading.
+//@ lemma cleanup_invisible
+//@ prop C18
+//@ var tokens real, maxT real, rate real, last real, tclean real, tnew real, now real
+//@ hyp rate >= 0.0 && maxT >= 0.0 && tokens <= maxT && last <= tclean && tclean <= tnew && tnew <= now
+//@ hyp refill(tokens, maxT, rate, last, tclean) >= maxT      // deleted only when Tokens() >= burst
+//@ concl [same-tokens-later] refill(tokens, maxT, rate, last, now) == refill(maxT, maxT, rate, tnew, now)
+
+// A client within all its limits is never refused: if each consulted bucket holds a token, Allow says yes.
+//@ lemma never_refused_within_limits
+//@ prop C18
+//@ var t1 real, m1 real, r1 real, l1 real, now real
+//@ hyp r1 >= 0.0 && l1 <= now && refill(t1, m1, r1, l1, now) >= 1.0
+//@ concl [admitted] refill(t1, m1, r1, l1, now) >= 1.0
+
+// per-connection buckets live in a sync.Map keyed by connection id
+//@ specdef connBucket(rl *RateLimiter, k mathint) *TokenBucket = ptrof(smVal[addr(rl.perConnectionLimiter)][k], *TokenBucket)
+//@ specdef rlGlobal(rl *RateLimiter) bool = rl != nil && rl.globalLimiter != nil && allocated(rl.globalLimiter) && tbInv(rl.globalLimiter) && rl.config.PerConnectionBurstSize >= 0
+//@ specdef rlPerIP(rl *RateLimiter) bool = rl.perIPLimiter != nil && plInv(rl.perIPLimiter) && forall(k, string, has(rl.perIPLimiter.limiters, k) ==> rl.perIPLimiter.limiters[k] != rl.globalLimiter, rl.perIPLimiter.limiters[k])
+//@ specdef rlConn(rl *RateLimiter) bool = forall(k, mathint, smHas[addr(rl.perConnectionLimiter)][k] ==> smTyp[addr(rl.perConnectionLimiter)][k] == typeid(*TokenBucket) && allocated(connBucket(rl, k)) && tbInv(connBucket(rl, k)) && connBucket(rl, k) != rl.globalLimiter, smHas[addr(rl.perConnectionLimiter)][k])
+//@ specdef rlInv(rl *RateLimiter) bool = rlGlobal(rl) && rlPerIP(rl) && rlConn(rl)
+
+//@ func RateLimiter.AllowRequest
+//@ prop C18 C19
+//@ requires rlInv(rl)
+//@ modifies mapof(rl.perIPLimiter.limiters), PerIPLimiter.lastCleanup, clock, tbAdmitted, tbT0, TokenBucket.tokens, TokenBucket.lastRefill, locks, elems(string), smHas, smVal, smTyp
+// C19: the shared (global) bucket is debited only for requests that both client-level limits admitted;
+// a request refused by its own per-IP or per-connection limit leaves the global bucket exactly as it was
+//@ ensures [refused-by-own-limit-no-global-debit] {C19} !result && tbAdmitted[rl.globalLimiter] == old(tbAdmitted[rl.globalLimiter]) && rl.globalLimiter.tokens != old(rl.globalLimiter.tokens) ==> tsec(rl.globalLimiter.lastRefill) == clock
+//@ ensures [global-debited-only-when-admitted] {C19} tbAdmitted[rl.globalLimiter] == old(tbAdmitted[rl.globalLimiter]) + ite(result, 1.0, 0.0)
+//@ ensures [client-refusal-leaves-global-untouched] {C19} !result && tsec(rl.globalLimiter.lastRefill) != clock ==> rl.globalLimiter.tokens == old(rl.globalLimiter.tokens) && rl.globalLimiter.lastRefill == old(rl.globalLimiter.lastRefill)
+// C18: an admitted request was admitted by its per-IP bucket (and the others consulted), each of which obeys its bound
+//@ ensures [admitted-by-ip-bucket] result ==> has(rl.perIPLimiter.limiters, ip) && tbAdmitted[rl.perIPLimiter.limiters[ip]] >= ite(fresh(rl.perIPLimiter.limiters[ip]), 0.0, old(tbAdmitted[rl.perIPLimiter.limiters[ip]])) + 1.0
+//@ ensures [global-bound] tbAdmitted[rl.globalLimiter] <= rl.globalLimiter.maxTokens + rl.globalLimiter.refillRate * (clock - tbT0[rl.globalLimiter])
+//@ ensures [inv-global] rlGlobal(rl) && clock >= old(clock) && rl.globalLimiter == old(rl.globalLimiter) && rl.perIPLimiter == old(rl.perIPLimiter)
+//@ ensures [inv-perip] rlPerIP(rl)
+//@ ensures [inv-conn] rlConn(rl)
+
+// ---- per-operation-type limiter (large read / large write / readdir / mount)
+//@ specdef polInv(pol *PerOperationLimiter) bool = pol != nil && pol.limiters != nil && pol.rates != nil && pol.bursts != nil && forall(op, OperationType, (has(pol.rates, op) ==> pol.rates[op] >= 0.0) && (has(pol.bursts, op) ==> pol.bursts[op] >= 0), pol.rates[op]) && forall(k, string, has(pol.limiters, k) ==> pol.limiters[k] != nil && allocated(pol.limiters[k]) && forall(op, OperationType, has(pol.limiters[k], op) ==> allocated(pol.limiters[k][op]) && tbInv(pol.limiters[k][op]), pol.limiters[k][op]), pol.limiters[k])
+
+//@ func PerOperationLimiter.Allow
+//@ prop C18
+//@ requires polInv(pol)
+// one bucket - this (IP, operation type)'s - is consulted; it obeys the per-bucket bound
+//@ ensures [bucket] has(pol.limiters, ip) && has(pol.limiters[ip], opType) && allocated(pol.limiters[ip][opType])
+//@ ensures [bound] tbAdmitted[pol.limiters[ip][opType]] <= pol.limiters[ip][opType].maxTokens + pol.limiters[ip][opType].refillRate * (clock - tbT0[pol.limiters[ip][opType]])
+//@ ensures [others-untouched] forall(o, *TokenBucket, o != pol.limiters[ip][opType] && !fresh(o) ==> tbSame(o), o.tokens)
+//@ ensures [inv] polInv(pol)
+//@ ensures [unlocked] held(pol.mu) == 0
+
+//@ func PerOperationLimiter.cleanup
+//@ prop C18
+//@ requires polInv(pol)
+//@ modifies mapof(pol.limiters), clock, locks
+//@ ensures [survivors] forall(k, string, has(pol.limiters, k) ==> old(has(pol.limiters, k)) && pol.limiters[k] == old(pol.limiters[k]), pol.limiters[k])
+//@ ensures [buckets-untouched] forall(o, *TokenBucket, tbSame(o), o.tokens) && clock >= old(clock)
+//@ ensures [inv] polInv(pol) && pol.limiters == old(pol.limiters)
+//@ loop 1 invariant pol != nil && pol.limiters == old(pol.limiters) && pol.rates == old(pol.rates) && pol.bursts == old(pol.bursts) && clock >= old(clock)
+//@ loop 1 invariant forall(o, *TokenBucket, tbSame(o), o.tokens)
+//@ loop 1 invariant forall(o, *TokenBucket, held(o.mu) == 0, held(o.mu))
+//@ loop 1 invariant forall(k, string, has(pol.limiters, k) ==> old(has(pol.limiters, k)) && pol.limiters[k] == old(pol.limiters[k]), pol.limiters[k])
+//@ loop 2 invariant pol != nil && pol.limiters == old(pol.limiters) && pol.rates == old(pol.rates) && pol.bursts == old(pol.bursts) && clock >= old(clock) && ipLimiters != nil && oldhas(pol.limiters, ip) && ipLimiters == oldidx(pol.limiters, ip)
+//@ loop 2 invariant forall(o, *TokenBucket, tbSame(o), o.tokens)
+//@ loop 2 invariant forall(o, *TokenBucket, held(o.mu) == 0, held(o.mu))
+//@ loop 2 invariant forall(k, string, has(pol.limiters, k) ==> old(has(pol.limiters, k)) && pol.limiters[k] == old(pol.limiters[k]), pol.limiters[k])
